@@ -309,21 +309,29 @@ func (f *fSeries) Read() string {
 type fCont struct {
 	t      *Ty
 	fields []Flat
+	// the field lists handed to the codec are kept by the object (as a hand-written type with a
+	// `fields` slice would) and passed with `...` on every call: they belong to the caller
+	serKept []codec.Serializable
+	desKept []codec.Deserializable
 }
 
 func (f *fCont) ser() []codec.Serializable {
-	out := make([]codec.Serializable, len(f.fields))
-	for i, x := range f.fields {
-		out[i] = x
+	if len(f.serKept) != len(f.fields) {
+		f.serKept = make([]codec.Serializable, len(f.fields))
+		for i, x := range f.fields {
+			f.serKept[i] = x
+		}
 	}
-	return out
+	return f.serKept
 }
 func (f *fCont) des() []codec.Deserializable {
-	out := make([]codec.Deserializable, len(f.fields))
-	for i, x := range f.fields {
-		out[i] = x
+	if len(f.desKept) != len(f.fields) {
+		f.desKept = make([]codec.Deserializable, len(f.fields))
+		for i, x := range f.fields {
+			f.desKept[i] = x
+		}
 	}
-	return out
+	return f.desKept
 }
 func (f *fCont) Serialize(w *codec.EncodingWriter) error {
 	if f.t.IsFixed() {
